@@ -1116,7 +1116,7 @@ package router
 // Leaving: the realm goroutine drops the client entry and testaments and has
 // the dealer and broker remove the session, unless the whole realm shuts down.
 //@ closure (r *realm) onLeave 1
-//@   props C05
+//@   props C05 C02
 //@   captures sess != nil && sync != nil && r != nil && r.dealer != nil && r.broker != nil && r.clients != nil && r.testaments != nil
 //@   callcount removeSession arg1
 //@   returnsite : [session-removed-from-dealer-and-broker-unless-realm-shuts-down] !shutdown ==> calls(removeSession, sess) == old(calls(removeSession, sess)) + 2
@@ -1279,3 +1279,13 @@ package router
 //@   requires brokerInv(b) && brokerHist(b)
 //@   loop i < j
 //@     invariant [reverse-bounds] 0 <= i && j < len(filteredEvents)
+
+// Flushing testaments of one scope leaves the session's testaments of the
+// other scope stored (they are published when the session ends).
+//@ closure (r *realm) testamentFlush 1
+//@   on realm
+//@   props C05 C18
+//@   captures r != nil
+//@   returnsite : [destroyed-flush-keeps-detached] scope == "destroyed" && old(caller in r.testaments) && old(r.testaments[caller].detached) != nil ==> caller in r.testaments && r.testaments[caller].detached == old(r.testaments[caller].detached)
+//@   returnsite : [detached-flush-keeps-destroyed] scope != "destroyed" && old(caller in r.testaments) && old(r.testaments[caller].destroyed) != nil ==> caller in r.testaments && r.testaments[caller].destroyed == old(r.testaments[caller].destroyed)
+//@   returnsite : [named-scope-flushed] caller in r.testaments ==> (scope == "destroyed" ==> r.testaments[caller].destroyed == nil) && (scope != "destroyed" ==> r.testaments[caller].detached == nil)
